@@ -14,7 +14,7 @@ from pDESy.model.base_project import BaseProject
 UNITS = (1, 2, 3, 5, 60)
 
 
-def make_sub(tmpdir, d, absence, how, unit_min, tag):
+def make_sub(tmpdir, d, absence, how, unit_min, tag, post_insert=None):
     """a sub-project of pure duration d (one task, one worker), simulated as requested and saved"""
     sp = {"tasks": [{"name": "S0", "work": float(d)}], "links": [], "unit_min": unit_min,
           "teams": [{"name": "TM0", "targets": [0], "workers": [{"name": "SW0", "skills": {"S0": 1.0}, "cost": 1.0}]}]}
@@ -23,6 +23,8 @@ def make_sub(tmpdir, d, absence, how, unit_min, tag):
         m.project.simulate(max_time=50, absence_time_list=list(absence))
     elif how == "failure":
         m.project.simulate(max_time=max(0, d - 1), absence_time_list=list(absence))
+    if post_insert:
+        m.project.insert_absence_time_list(list(post_insert))  # e.g. a holiday entered after the sub-project had been simulated
     path = os.path.join(tmpdir, "sub-%s.json" % tag)
     m.project.write_simple_json(path)
     return path, m.project.time, int(m.project.status)
@@ -55,7 +57,20 @@ def attrs(t):
 
 def one(tmpdir, d, absence, how, remove, u_sub, u_parent, position, tag, prior=None, via_json=False, parent_abs=None, extra=None):
     out = []
-    path, sub_time, sub_status = make_sub(tmpdir, d, absence, how, u_sub, tag)
+    post_insert = None
+    if extra == "post-insert" and how == "success":
+        # the oracle does not read the library's clock: a run of d working steps with the in-range absence steps has T0 steps;
+        # inserting T0-1 and T0 (ascending) adds two more, both of which count as absence steps afterwards
+        T0, done = 0, 0
+        while done < d:  # walk the steps: d working steps, absence steps in between
+            if T0 not in absence:
+                done += 1
+            T0 += 1
+        post_insert = [T0 - 1, T0]
+    path, sub_time, sub_status = make_sub(tmpdir, d, absence, how, u_sub, tag, post_insert)
+    if post_insert:
+        absence = tuple(absence) + tuple(post_insert)
+        sub_time = T0 + 2
     n_abs_in = len([a for a in set(absence) if a < sub_time])
     if prior is not None:
         # history: another sub-project task was configured from the very same file before (with flag `prior`)
@@ -101,6 +116,36 @@ def one(tmpdir, d, absence, how, remove, u_sub, u_parent, position, tag, prior=N
             t.set_work_amount_progress_of_unit_step_time(m.project.unit_timedelta)
         except Exception as e:
             return out + [("C20:reload-of-configured-parent-raised:%s" % type(e).__name__, {"error": repr(e)})], None
+    if parent_abs and extra == "flag-history":
+        # an earlier run of the same parent object asked for automatic tasks to go on during absence; the run under test does not
+        # (keyword left out): the sub-project task must stand still at absence steps and use `want` working steps
+        try:
+            m.project.simulate(max_time=400, absence_time_list=list(parent_abs), perform_auto_task_while_absence_time=True)
+            m.project.simulate(max_time=400, absence_time_list=list(parent_abs))
+        except Exception as e:
+            return out + [("C20:parent-simulate-raised:%s" % type(e).__name__, {"error": repr(e)})], None
+        rem = list(t.remaining_work_amount_record_list)
+        start = 0
+        if position == "after-pred":
+            done, k = 0, 0
+            while done < 2:
+                if k not in parent_abs:
+                    done += 1
+                k += 1
+            start = k
+        want = int(math.ceil(dur * u_sub / float(u_parent) - 1e-9))
+        expect, k = [], start
+        while len(expect) < want:
+            if k not in parent_abs:
+                expect.append(k)
+            k += 1
+        prog = [k for k in range(len(rem)) if (rem[k - 1] if k else float(dur)) - rem[k] > 1e-9]
+        det = {"sub_duration": dur, "u_sub": u_sub, "u_parent": u_parent, "position": position, "parent_absence": list(parent_abs), "remaining_log": rem[:12], "progress_steps": prog, "expected_progress_steps": expect}
+        if int(m.project.status) != 1:
+            out.append(("C20:parent-did-not-complete", det))
+        elif prog != expect:
+            out.append(("C20:sub-project-task-progress-steps-wrong-after-an-earlier-flagged-run(keyword-omitted)", det))
+        return out, want
     if parent_abs:
         # parent run with project-wide absence steps and the automatic-task flag set: the sub-project task (an automatic
         # task) progresses at every step from the one its dependencies allow, absence steps included
@@ -220,6 +265,13 @@ def items(tier):
             for pos in ("alone", "after-pred", "beside"):
                 out.append((d, (), "success", True, us, up, pos, None, False, None, "team-targets-sub"))
                 out.append((d, (), "success", True, us, up, pos, None, False, None, "relate-twice"))
+        for us, up in ((1, 1), (3, 2), (2, 3)):
+            for pabs in ((1,), (0, 3), (2, 3)):
+                for pos in ("alone", "after-pred"):
+                    out.append((d, (), "success", True, us, up, pos, None, False, pabs, "flag-history"))
+            for ab in ((), (0,)):  # (lists naming steps the run never reached are left out here: what an insert does to them is C18's subject)
+                for remove in (True, False):
+                    out.append((d, ab, "success", remove, us, up, "alone", None, False, None, "post-insert"))
         for how in ("failure", "never"):
             for remove in (True, False):
                 out.append((d, (), how, remove, 1, 1, "alone", None))
